@@ -642,6 +642,9 @@ macro_rules! interp {
                             let a: String = match src {
                                 "vec.iter" => drive(regs[r].iter(), steps, show),
                                 "vec.for" => drive((&regs[r]).into_iter(), steps, show),
+                                // `.rev()` in method syntax ON THE CONCRETE TYPE (an inherent `rev` would be what runs), then stepped from both ends
+                                "vec.iter.rev" => drive(regs[r].iter().rev(), steps, show),
+                                "slice.iter.rev" => { let sl = regs[r].as_slice(); drive(sl.iter().rev(), steps, show) }
                                 "slice.iter" => { let sl = regs[r].as_slice(); let mut it: $IT<'_> = sl.iter(); drive(it, steps, show) }
                                 "slice.into_iter" => drive(regs[r].as_slice().into_iter(), steps, show),
                                 "slice.trait" => drive(IntoIterator::into_iter(regs[r].as_slice()), steps, show),
@@ -654,7 +657,7 @@ macro_rules! interp {
                                     let n = sl.len(); format!("{},P{},Q{}", a, n, sl.iter().count()) }
                                 _ => panic!("bad iterator source") };
                             format!("{}{}", a, iter_oob(&a, minlen)) });
-                        let rs = exec(1, || -> String { let a = drive(mirs[r].iter(), steps, |x: &T, _k| el_ids(x));
+                        let rs = exec(1, || -> String { let a = if src.ends_with(".rev") { drive(mirs[r].iter().rev(), steps, |x: &T, _k| el_ids(x)) } else { drive(mirs[r].iter(), steps, |x: &T, _k| el_ids(x)) };
                             if src.ends_with(".reuse") { format!("{},P{},Q{}", a, mirs[r].len(), mirs[r].iter().count()) } else { a } });
                         (ri, rs) }
                     "itermut" => { let r = reg(w[1]); let (src, steps) = (w[2], w[3]); let nl = <T as Shape>::nleaves();
@@ -664,6 +667,8 @@ macro_rules! interp {
                             let a: String = match src {
                                 "vec.iter_mut" => drive(regs[r].iter_mut(), steps, show),
                                 "vec.for_mut" => drive((&mut regs[r]).into_iter(), steps, show),
+                                "vec.iter_mut.rev" => drive(regs[r].iter_mut().rev(), steps, show),
+                                "slicemut.iter_mut.rev" => { let mut sl = regs[r].as_mut_slice(); drive(sl.iter_mut().rev(), steps, show) }
                                 "slicemut.iter_mut" => { let mut sl = regs[r].as_mut_slice(); let mut it: $ITM<'_> = sl.iter_mut(); drive(it, steps, show) }
                                 "slicemut.into_iter" => drive(regs[r].as_mut_slice().into_iter(), steps, show),
                                 "slicemut.trait" => drive(IntoIterator::into_iter(regs[r].as_mut_slice()), steps, show),
@@ -671,7 +676,8 @@ macro_rules! interp {
                                     let n = sl.len(); format!("{},P{},Q{}", a, n, sl.iter_mut().count()) }
                                 _ => panic!("bad iterator source") };
                             format!("{}{}", a, iter_oob(&a, minlen)) });
-                        let rs = exec(1, || -> String { let a = drive(mirs[r].iter_mut(), steps, |x: &mut T, k| { let s = el_ids(x); let l = k % nl; let mut j = l as i64; <T as Shape>::own_write(x, &mut j, ((16 + k as u32) % 32) * 8 + l as u32); s });
+                        let rs = exec(1, || -> String { let wr = |x: &mut T, k: usize| { let s = el_ids(x); let l = k % nl; let mut j = l as i64; <T as Shape>::own_write(x, &mut j, ((16 + k as u32) % 32) * 8 + l as u32); s };
+                            let a = if src.ends_with(".rev") { drive(mirs[r].iter_mut().rev(), steps, wr) } else { drive(mirs[r].iter_mut(), steps, |x: &mut T, k| { let s = el_ids(x); let l = k % nl; let mut j = l as i64; <T as Shape>::own_write(x, &mut j, ((16 + k as u32) % 32) * 8 + l as u32); s }) };
                             if src.ends_with(".reuse") { format!("{},P{},Q{}", a, mirs[r].len(), mirs[r].iter_mut().count()) } else { a } });;
                         (ri, rs) }
                     // sort r <entry> [mod=m] [panic=k] [range=a:b]
